@@ -1,4 +1,6 @@
 import Ezc3dVerif.Proofs.NoUB
+import Ezc3dVerif.Proofs.All
+import Ezc3dVerif.Proofs.Outcome
 import Ezc3dVerif.Proofs.Updaters
 import Ezc3dVerif.Properties.C09
 /-
@@ -349,5 +351,289 @@ theorem setStrs_WF (p p' : Param) (data : List Bytes) (dims : List Nat) (h : p.s
     simp only [this, if_false, List.drop_succ_cons, List.drop_zero]
     exact prod_le_of_consistent _ _ hc
   · cases h
+
+/-! ### well-formedness is an invariant of every history, so the writer never indexes out of range on a reachable object -/
+
+/-- every parameter of the tree is well-formed -/
+def WFs (gs : List Group) : Prop := ∀ g ∈ gs, ∀ p ∈ g.params, ParamWF p
+
+theorem mem_modify {α} (l : List α) (i : Nat) (f : α → α) (x : α) (h : x ∈ l.modify i f) : x ∈ l ∨ ∃ y ∈ l, x = f y := by
+  induction l generalizing i with
+  | nil => simp at h
+  | cons a t ih =>
+    cases i with
+    | zero =>
+      simp only [List.modify_zero_cons, List.mem_cons] at h
+      rcases h with h | h
+      · exact Or.inr ⟨a, by simp, h⟩
+      · exact Or.inl (by simp [h])
+    | succ j =>
+      simp only [List.modify_succ_cons, List.mem_cons] at h
+      rcases h with h | h
+      · exact Or.inl (by simp [h])
+      · rcases ih j h with h1 | ⟨y, hy, rfl⟩
+        · exact Or.inl (by simp [h1])
+        · exact Or.inr ⟨y, by simp [hy], rfl⟩
+
+theorem mem_set {α} (l : List α) (i : Nat) (a x : α) (h : x ∈ l.set i a) : x ∈ l ∨ x = a := by
+  rcases List.mem_or_eq_of_mem_set h with h | h
+  · exact Or.inl h
+  · exact Or.inr h
+
+theorem modParam_WF (gs : List Group) (gi pi : Nat) (f : Param → Param) (h : WFs gs) (hf : ∀ p, ParamWF (f p)) :
+    WFs (modParam gs gi pi f) := by
+  intro g hg p hp
+  unfold modParam at hg
+  rcases mem_modify _ _ _ _ hg with hg | ⟨g0, hg0, rfl⟩
+  · exact h g hg p hp
+  · simp only at hp
+    rcases mem_modify _ _ _ _ hp with hp | ⟨p0, _, rfl⟩
+    · exact h g0 hg0 p hp
+    · exact hf p0
+
+theorem setInts!_WF (p : Param) (v : List Int) : ParamWF (p.setInts! v) := by
+  unfold ParamWF Param.setInts!; simp
+theorem setFloats!_WF (p : Param) (v : List UInt32) : ParamWF (p.setFloats! v) := by
+  unfold ParamWF Param.setFloats!; simp
+theorem setStrs!_WF (p : Param) (v : List Bytes) : ParamWF (p.setStrs! v) := by
+  unfold ParamWF Param.setStrs!; simp
+
+theorem init_WF : WFs C3D.init.groups := by
+  intro g hg p hp
+  simp only [C3D.init, defaultGroups, List.mem_cons, List.not_mem_nil, or_false] at hg
+  rcases hg with rfl | rfl | rfl <;> simp only [List.mem_cons, List.not_mem_nil, or_false] at hp <;>
+    rcases hp with rfl | rfl | rfl | rfl | rfl | rfl | rfl | rfl | rfl | rfl <;> simp [ParamWF, hasSize]
+
+theorem updatePointParams_WF (gs : List Group) (frames : List Frame) (np : List Bytes) (h : WFs gs) :
+    (updatePointParams gs frames np).All WFs := by
+  unfold updatePointParams
+  refine Outcome.all_andThen h fun ⟨gP, iF⟩ _ => ?_
+  refine Outcome.all_andThen h fun fr _ => ?_
+  simp only
+  have h1 : WFs (if frames.length ≠ intToU64 fr then modParam gs gP iF (·.setInts! [u64ToI32 frames.length]) else gs) := by
+    split
+    · exact modParam_WF _ _ _ _ h (fun p => setInts!_WF p _)
+    · exact h
+  generalize (if frames.length ≠ intToU64 fr then modParam gs gP iF (·.setInts! [u64ToI32 frames.length]) else gs) = g1 at h1
+  refine Outcome.all_andThen h1 fun oldLabels _ => ?_
+  refine Outcome.all_andThen h1 fun used _ => ?_
+  refine Outcome.all_ite _ (fun _ => ?_) (fun _ => h1)
+  refine Outcome.all_andThen h1 fun ⟨_, iUsed⟩ _ => ?_
+  simp only
+  have h2 := modParam_WF g1 gP iUsed (·.setInts! [u64ToI32 (pointNames frames oldLabels np).length]) h1 (fun p => setInts!_WF p _)
+  refine Outcome.all_andThen h2 fun ⟨_, iL⟩ _ => ?_
+  refine Outcome.all_andThen h2 fun ⟨_, iD⟩ _ => ?_
+  refine Outcome.all_andThen h2 fun ⟨_, iU⟩ _ => ?_
+  simp only
+  exact modParam_WF _ _ _ _ (modParam_WF _ _ _ _ (modParam_WF _ _ _ _ h2 (fun p => setStrs!_WF p _)) (fun p => setStrs!_WF p _))
+    (fun p => setStrs!_WF p _)
+
+theorem updateAnalogParams_WF (gs : List Group) (frames : List Frame) (na : List Bytes) (h : WFs gs) :
+    (updateAnalogParams gs frames na).All WFs := by
+  unfold updateAnalogParams
+  refine Outcome.all_andThen h fun gA _ => ?_
+  refine Outcome.all_andThen h fun oldA _ => ?_
+  refine Outcome.all_andThen h fun aused _ => ?_
+  refine Outcome.all_ite _ (fun _ => ?_) (fun _ => h)
+  refine Outcome.all_andThen h fun ⟨_, iUsed⟩ _ => ?_
+  simp only
+  have h1 := modParam_WF gs gA iUsed (·.setInts! [u64ToI32 (channelNames frames oldA na).length]) h (fun p => setInts!_WF p _)
+  refine Outcome.all_andThen h1 fun ⟨_, iL⟩ _ => ?_
+  refine Outcome.all_andThen h1 fun ⟨_, iD⟩ _ => ?_
+  simp only
+  have h3 := modParam_WF _ gA iD (·.setStrs! ((channelNames frames oldA na).map fun _ => []))
+    (modParam_WF _ gA iL (·.setStrs! (channelNames frames oldA na)) h1 (fun p => setStrs!_WF p _)) (fun p => setStrs!_WF p _)
+  refine Outcome.all_andThen h3 fun ⟨_, iS⟩ _ => ?_
+  refine Outcome.all_andThen h3 fun scales _ => ?_
+  simp only
+  have h4 := modParam_WF _ gA iS (·.setFloats! (scales ++ List.replicate ((channelNames frames oldA na).length - scales.length) 0x3F800000)) h3
+    (fun p => setFloats!_WF p _)
+  refine Outcome.all_andThen h4 fun ⟨_, iO⟩ _ => ?_
+  refine Outcome.all_andThen h4 fun offs _ => ?_
+  simp only
+  have h5 := modParam_WF _ gA iO (·.setInts! (offs ++ List.replicate ((channelNames frames oldA na).length - offs.length) 0)) h4
+    (fun p => setInts!_WF p _)
+  refine Outcome.all_andThen h5 fun ⟨_, iU⟩ _ => ?_
+  refine Outcome.all_andThen h5 fun units _ => ?_
+  exact modParam_WF _ _ _ _ h5 (fun p => setStrs!_WF p _)
+
+theorem updateHeader_groups (F : FloatOps) (s : C3D) (P : List Group → Prop) (h : P s.groups) :
+    (updateHeader F s).All (fun c => P c.groups) := by
+  unfold updateHeader
+  cases updateHeaderH F s.groups s.frames s.hdr with
+  | ok a => exact h
+  | throw e l => exact h
+  | ub u => trivial
+
+theorem updateParameters_WF (F : FloatOps) (s : C3D) (np na : List Bytes) (h : WFs s.groups) :
+    (updateParameters F s np na).All (fun c => WFs c.groups) := by
+  unfold updateParameters
+  refine Outcome.all_ite _ (fun _ => h) (fun _ => ?_)
+  refine Outcome.all_ite _ (fun _ => h) (fun _ => ?_)
+  refine Outcome.all_bind (Q := fun c => WFs c.groups) ?_ (fun _ x => x) (fun c hc => updateHeader_groups F c WFs hc)
+  refine Outcome.all_lift (Q := WFs) ?_ (fun _ x => x)
+  exact Outcome.all_bind (updatePointParams_WF _ _ _ h) (fun _ x => x) (fun g hg => updateAnalogParams_WF g _ _ hg)
+
+theorem insertInto_WF (gs1 gs' : List Group) (gn : Bytes) (p : Param) (h1 : WFs gs1) (hp : ParamWF p)
+    (hi : ((groupIdx gs1 gn).bind fun gi => (atIdx gs1 gi).bind fun g => (g.addParam p).bind fun g' => .ok (gs1.set gi g')) = .ok gs') :
+    WFs gs' := by
+  obtain ⟨gi, _, hi⟩ := Res.bind_ok_iff.mp hi
+  obtain ⟨g, hg, hi⟩ := Res.bind_ok_iff.mp hi
+  obtain ⟨g', hg', hi⟩ := Res.bind_ok_iff.mp hi
+  cases hi
+  have hgm : g ∈ gs1 := by
+    unfold atIdx at hg
+    split at hg
+    · rename_i a ha; cases hg; exact List.mem_of_getElem? ha
+    · cases hg
+  intro x hx q hq
+  rcases mem_set _ _ _ _ hx with hx | rfl
+  · exact h1 x hx q hq
+  · unfold Group.addParam at hg'
+    split at hg'
+    · cases hg'
+    · split at hg'
+      · cases hg'
+        simp only at hq
+        rcases mem_set _ _ _ _ hq with hq | rfl
+        · exact h1 g hgm q hq
+        · exact hp
+      · cases hg'
+        simp only [List.mem_append, List.mem_cons, List.not_mem_nil, or_false] at hq
+        rcases hq with hq | rfl
+        · exact h1 g hgm q hq
+        · exact hp
+
+theorem WFs_append_empty (gs : List Group) (gn : Bytes) (h : WFs gs) : WFs (gs ++ [({ name := gn } : Group)]) := by
+  intro g hg q hq
+  simp only [List.mem_append, List.mem_cons, List.not_mem_nil, or_false] at hg
+  rcases hg with hg | rfl
+  · exact h g hg q hq
+  · simp at hq
+
+theorem insertParam_WF (gs gs' : List Group) (gn : Bytes) (p : Param) (h : WFs gs) (hp : ParamWF p)
+    (hi : insertParam gs gn p = .ok gs') : WFs gs' := by
+  unfold insertParam at hi
+  cases hgi : groupIdx gs gn with
+  | ok a => rw [hgi] at hi; exact insertInto_WF gs gs' gn p h hp hi
+  | throw e => rw [hgi] at hi; exact insertInto_WF _ gs' gn p (WFs_append_empty gs gn h) hp hi
+  | ub k => rw [hgi] at hi; exact insertInto_WF _ gs' gn p (WFs_append_empty gs gn h) hp hi
+
+/-- ONE STEP: whatever the operation and its outcome (success or refusal), a well-formed parameter tree stays well-formed,
+    provided a parameter handed to `parameter()` is itself well-formed (what the typed setters guarantee: `set*_WF`) -/
+theorem step_preserves_WF (F : FloatOps) (s : C3D) (op : Op) (h : WFs s.groups)
+    (hp : ∀ g p, op = .parameter g p → ParamWF p) : (step F s op).All (fun c => WFs c.groups) := by
+  cases op with
+  | parameter g p =>
+    simp only [step, C3D.parameter]
+    refine Outcome.all_ite _ (fun _ => h) (fun _ => ?_)
+    refine Outcome.all_ite _ (fun _ => h) (fun _ => ?_)
+    refine Outcome.all_andThen h fun gs' hgs' => ?_
+    exact updateHeader_groups F _ WFs (insertParam_WF _ _ _ _ h (hp g p rfl) hgs')
+  | lockGroup g =>
+    simp only [step, C3D.setGroupLock]
+    refine Outcome.all_andThen h fun gi _ => ?_
+    intro x hx q hq
+    rcases mem_modify _ _ _ _ hx with hx | ⟨y, hy, rfl⟩
+    · exact h x hx q hq
+    · exact h y hy q hq
+  | unlockGroup g =>
+    simp only [step, C3D.setGroupLock]
+    refine Outcome.all_andThen h fun gi _ => ?_
+    intro x hx q hq
+    rcases mem_modify _ _ _ _ hx with hx | ⟨y, hy, rfl⟩
+    · exact h x hx q hq
+    · exact h y hy q hq
+  | frame f idx =>
+    simp only [step, C3D.frame]
+    refine Outcome.all_andThen h fun used _ => ?_
+    refine Outcome.all_ite _ (fun _ => h) (fun _ => ?_)
+    refine Outcome.all_andThen h fun labels _ => ?_
+    refine Outcome.all_ite _ (fun _ => h) (fun _ => ?_)
+    refine Outcome.all_andThen h fun pz _ => ?_
+    refine Outcome.all_ite _ (fun _ => h) (fun _ => ?_)
+    refine Outcome.all_andThen h fun az _ => ?_
+    refine Outcome.all_ite _ (fun _ => h) (fun _ => ?_)
+    refine Outcome.all_andThen h fun aused _ => ?_
+    refine Outcome.all_ite _ (fun _ => h) (fun _ => ?_)
+    refine Outcome.all_ite _ (fun _ => h) (fun _ => ?_)
+    refine Outcome.all_andThen h fun frames' _ => ?_
+    exact updateParameters_WF F _ _ _ h
+  | point n =>
+    simp only [step, C3D.point]
+    split
+    · unfold C3D.pointCols
+      refine Outcome.all_ite _ (fun _ => h) (fun _ => ?_)
+      split
+      · exact h
+      · refine Outcome.all_ite _ (fun _ => h) (fun _ => ?_)
+        refine Outcome.all_andThen h fun labels _ => ?_
+        split
+        · exact h
+        · exact updateParameters_WF F _ _ _ h
+    · exact updateParameters_WF F _ _ _ h
+  | pointCols fs =>
+    simp only [step, C3D.pointCols]
+    refine Outcome.all_ite _ (fun _ => h) (fun _ => ?_)
+    split
+    · exact h
+    · refine Outcome.all_ite _ (fun _ => h) (fun _ => ?_)
+      refine Outcome.all_andThen h fun labels _ => ?_
+      split
+      · exact h
+      · exact updateParameters_WF F _ _ _ h
+  | analog n =>
+    simp only [step, C3D.analog]
+    split
+    · unfold C3D.analogCols
+      refine Outcome.all_ite _ (fun _ => h) (fun _ => ?_)
+      split
+      · exact h
+      · refine Outcome.all_ite _ (fun _ => h) (fun _ => ?_)
+        split
+        · exact h
+        · refine Outcome.all_ite _ (fun _ => h) (fun _ => ?_)
+          refine Outcome.all_andThen h fun labels _ => ?_
+          simp only
+          split
+          · exact h
+          · exact updateParameters_WF F _ _ _ h
+    · exact updateParameters_WF F _ _ _ h
+  | analogCols fs =>
+    simp only [step, C3D.analogCols]
+    refine Outcome.all_ite _ (fun _ => h) (fun _ => ?_)
+    split
+    · exact h
+    · refine Outcome.all_ite _ (fun _ => h) (fun _ => ?_)
+      split
+      · exact h
+      · refine Outcome.all_ite _ (fun _ => h) (fun _ => ?_)
+        refine Outcome.all_andThen h fun labels _ => ?_
+        split
+        · exact h
+        · exact updateParameters_WF F _ _ _ h
+
+/-- the parameters handed to `parameter()` along a history are well-formed -/
+def ParamsWF : List Op → Prop
+  | [] => True
+  | op :: rest => (∀ g p, op = .parameter g p → ParamWF p) ∧ ParamsWF rest
+
+/-- EVERY HISTORY: the parameter tree of every state reachable from a new object (successful and refused calls alike) is
+    well-formed -/
+theorem reach_WF (F : FloatOps) (ops : List Op) (s : C3D) (h : WFs s.groups) (hp : ParamsWF ops) :
+    WFs (runOps F s ops).groups := by
+  induction ops generalizing s with
+  | nil => exact h
+  | cons op rest ih =>
+    unfold runOps
+    have hs := step_preserves_WF F s op h hp.1
+    cases hst : step F s op with
+    | ok s' => rw [hst] at hs; exact ih s' hs hp.2
+    | throw e l => rw [hst] at hs; exact ih l hs hp.2
+    | ub k => exact h
+
+/-- ... hence SAVING ANY REACHABLE OBJECT never indexes a value vector out of range -/
+theorem reachable_write_noUB (F : FloatOps) (ops : List Op) (hp : ParamsWF ops) : (runOps F C3D.init ops).write.NoUB :=
+  write_noUB _ (reach_WF F ops C3D.init init_WF hp)
 
 end Ezc3d.C13
